@@ -49,6 +49,10 @@ type Set struct {
 	// done nothing but release / approve (C06 compares them between runs)
 	SyncPoints map[string]map[string]interface{}
 	brAtExit   string
+	// trOrigRoutes: the route interpretation of the namespace before the TrafficRouting custom resource started routing
+	trOrigRoutes string
+	// origRoutes: the route interpretation of the namespace when the user started the (first) release
+	origRoutes string
 	// publishedDuringCleanup: the user published another revision while the cleanup of a completed release was running
 	publishedDuringCleanup bool // state of the BatchRelease when the user's last exit action was written: none | deleting | live
 
@@ -62,7 +66,7 @@ func Attach(r *sim.Run) *Set {
 	s := &Set{R: r, S: r.S, Counters: map[string]int64{}, Sets: map[string]map[string]bool{}}
 	s.ns, s.stable = r.S.NS, r.S.SvcName()
 	s.canary = s.stable + "-canary"
-	if r.S.NoCanarySvc {
+	if r.S.NoCanarySvc || r.S.TRCR {
 		s.canary = s.stable
 	}
 	s.stableImg, s.targetImg = "img:v1", "img:v1"
@@ -78,7 +82,7 @@ func AttachTenant(r *sim.Run) *Set {
 	s := &Set{R: r, S: r.S, Counters: map[string]int64{}, Sets: map[string]map[string]bool{}}
 	s.ns, s.stable = r.S.NS, r.S.SvcName()
 	s.canary = s.stable + "-canary"
-	if r.S.NoCanarySvc {
+	if r.S.NoCanarySvc || r.S.TRCR {
 		s.canary = s.stable
 	}
 	s.stableImg, s.targetImg = "img:v1", "img:v1"
@@ -240,6 +244,9 @@ func (s *Set) onWrite(w *simapi.Write, v *simapi.View) {
 		if w.Key == s.S.WorkloadKey() && w.Actor == "user" {
 			if img := workloadImage(wl); img != s.targetImg {
 				s.targetImg = img
+				if s.origRoutes == "" && s.prev != nil {
+					s.origRoutes = jsonStr(interp.Routes(s.prev, s.ns))
+				}
 			}
 		}
 	}
@@ -253,7 +260,7 @@ func (s *Set) onWrite(w *simapi.Write, v *simapi.View) {
 		s.brCreatedSinceRelease = false
 		if s.prev != nil {
 			if pro := s.prev.GetKey(simapi.Key{Group: "rollouts.kruise.io", Kind: "Rollout", NS: s.ns, Name: s.S.RolloutName()}); pro != nil {
-				if reason, _ := condReason(pro, "Progressing"); reason == "Finalising" && simapi.Str(pro, "status.phase") == "Progressing" {
+				if reason, _ := condReason(pro, "Progressing"); (reason == "Finalising" || reason == "Cancelling") && simapi.Str(pro, "status.phase") == "Progressing" {
 					s.publishedDuringCleanup = true
 				}
 			}
